@@ -1,16 +1,11 @@
 open BinNums
 open Datatypes
-open Nat
 
 module Pos :
  sig
-  val succ : positive -> positive
+  val compare_cont : comparison -> positive -> positive -> comparison
 
-  val coq_lor : positive -> positive -> positive
+  val compare : positive -> positive -> comparison
 
-  val iter_op : ('a1 -> 'a1 -> 'a1) -> positive -> 'a1 -> 'a1
-
-  val to_nat : positive -> nat
-
-  val of_succ_nat : nat -> positive
+  val eqb : positive -> positive -> bool
  end
